@@ -401,7 +401,8 @@ Record minv (c : cfg) (m : mstate) : Prop := {
   mi_ready : calls_ok c (ready m);
   mi_log : log_ok (log m);
   mi_logv : Forall (fun e => verified c (fst e) = true) (log m);
-  mi_qn : qn m = 0 \/ exists b pn l', log m = (b, pn) :: l' /\ qn m = bnum b + 1
+  mi_qn : qn m = 0 \/ exists b pn l', log m = (b, pn) :: l' /\ qn m = bnum b + 1;
+  mi_qnle : qn m <= qnext (ms m)
 }.
 
 Definition step_sane (s : step) : Prop :=
@@ -450,6 +451,7 @@ Proof.
   - exact I.
   - constructor.
   - left. reflexivity.
+  - unfold qnext. cbn [queued]. destruct (bs_wf_next p Hp). lia.
 Qed.
 
 Ltac simp_ms := cbn [set_calls set_ms set_alive set_parked set_env ms].
@@ -507,12 +509,14 @@ Proof.
     destruct I. constructor; simp_m; try assumption.
     + apply try_push_inv; assumption.
     + apply calls_remove; assumption.
+    + pose proof (try_push_qnext (cap c) (ms m) b). lia.
   - (* Cancel *) cbn [mstep]. destruct I. constructor; simp_m; try assumption; apply calls_remove; assumption.
   - (* EnvPersist *) cbn [mstep]. destruct I. constructor; simp_m; try assumption; try exact Hs.
   - (* Observe *) cbn [mstep]. destruct (alive m); [|exact I].
     destruct (update_persisted (cap c) (ms m) (env m)) as [s'|] eqn:E.
     + destruct I. constructor; simp_m; try assumption.
-      eapply update_persisted_inv; eassumption.
+      * eapply update_persisted_inv; eassumption.
+      * pose proof (update_persisted_qnext _ _ _ _ E). lia.
     + destruct I. constructor; simp_m; assumption.
   - (* Submit *) cbn [mstep]. destruct (alive m && negb (parked m)); [|exact I].
     destruct (sblock (cache (ms m)) (submit_target m)) as [b|] eqn:E; [|exact I].
@@ -528,6 +532,7 @@ Proof.
         -- rewrite Hlog. lia.
     + constructor; [|assumption]. cbn. rewrite Forall_forall in Hver. apply Hver. exact Hin.
     + right. eexists _, _, _. split; reflexivity.
+    + pose proof (consec_range _ _ _ Hc Hin). unfold qnext in *. lia.
   - (* SubmitDone *) cbn [mstep]. destruct I. constructor; simp_m; assumption.
   - (* Restart *) cbn [mstep]. destruct (bs_verify (env m)) eqn:E; [|exact I].
     destruct I. constructor; simp_m; try assumption.
@@ -535,6 +540,7 @@ Proof.
     + constructor.
     + constructor.
     + left. reflexivity.
+    + unfold qnext. cbn [queued]. destruct (bs_wf_next _ mi_env0). lia.
 Qed.
 
 Lemma run_inv : forall c ss m, minv c m -> Forall step_sane ss -> minv c (run c m ss).
@@ -769,4 +775,26 @@ Proof.
   - exact Hfi.
   - destruct Hcap as [H|H]; lia.
   - rewrite Forall_forall in Hver. exact Hver.
+Qed.
+
+(* ---------- the persister is never stuck below the queue ---------- *)
+Lemma submit_enabled : forall c m, minv c m -> alive m = true -> parked m = false ->
+  submit_target m < qnext (ms m) ->
+  exists b, sblock (cache (ms m)) (submit_target m) = Some b /\ bnum b = submit_target m /\
+            log (mstep c m Submit) = (b, pnext (ms m)) :: log m.
+Proof.
+  intros c m I Ha Hp Ht. pose proof (mi_store _ _ I) as Is.
+  destruct Is as [[Hc [Hf _]] _ _ _ _ _].
+  assert (Hr : qnext (ms m) - Z.of_nat (length (cache (ms m))) <= submit_target m
+               < qnext (ms m) - Z.of_nat (length (cache (ms m))) + Z.of_nat (length (cache (ms m)))).
+  { unfold submit_target in *. unfold pnext in *. lia. }
+  destruct (sblock_exists _ _ _ Hc Hr) as (b & Hb & Hn).
+  exists b. split; [exact Hb|]. split; [exact Hn|].
+  cbn [mstep]. rewrite Ha, Hp. cbn [negb andb]. rewrite Hb. reflexivity.
+Qed.
+
+Lemma submit_target_le : forall c m, minv c m -> submit_target m <= qnext (ms m).
+Proof.
+  intros c m I. unfold submit_target. pose proof (mi_qnle _ _ I). pose proof (i_pq _ _ (mi_store _ _ I)).
+  unfold pnext in *. lia.
 Qed.
